@@ -436,7 +436,8 @@ func (group *Group) broadcastByRtmpMsg(msg base.RtmpMsg) {
 			group.stat.VideoCodec = base.VideoCodecHevc
 		}
 	}
-	if group.stat.VideoHeight == 0 || group.stat.VideoWidth == 0 {
+	// the dimensions follow the sequence header in force: an encoder may change its resolution inside one publish
+	if msg.IsVideoKeySeqHeader() {
 		if msg.IsAvcKeySeqHeader() {
 			sps, _, err := avc.ParseSpsPpsFromSeqHeader(msg.Payload)
 			if err == nil {
